@@ -94,6 +94,37 @@ def _variant(x, kind):
             if np.array_equal(a, b):
                 return None
             return _rebuild(x, b)
+        if kind == 'first':
+            # another first element (a leading 0 becomes non-zero and vice versa): memos keyed on shape only / on the tail
+            b = a.copy()
+            if a.dtype.kind == 'f':
+                b[0] = (a[0] + a[1]) / 2 if a[0] != a[1] else a[0] + 1.0
+            else:
+                b[0] = a[1] if a[0] != a[1] else a[0] + 1
+            return None if np.array_equal(a, b) else _rebuild(x, b)
+        if kind == 'superset':
+            # one more entry in front (the argument the module asked for is then a strict subset of the previous one)
+            if a.dtype.kind != 'f' or a.size < 2:
+                return None
+            extra = a[0] / 2 if a[0] > 0 else (a[1] / 2 if a[1] > 0 else None)
+            if extra is None or extra in a:
+                return None
+            b = np.concatenate([[extra], a]) if a[0] > 0 else np.concatenate([a[:1], [extra], a[1:]])
+            if isinstance(x, np.ndarray):
+                return b.astype(a.dtype)
+            return type(x)(b.tolist())
+        if kind == 'view':
+            # the same bytes read as another dtype of the same width (memos keyed on the raw buffer)
+            if not isinstance(x, np.ndarray) or not x.flags['C_CONTIGUOUS']:
+                return None
+            other = {'int16': 'uint16', 'uint16': 'int16', 'int32': 'uint32', 'uint32': 'int32', 'int64': 'uint64', 'uint64': 'int64',
+                     'int8': 'uint8', 'uint8': 'int8', 'float64': 'int64', 'float32': 'int32'}.get(str(x.dtype))
+            if other is None:
+                return None
+            b = x.view(other)
+            if np.array_equal(b.astype(float), x.astype(float)):
+                return None
+            return b.copy()
         if kind == 'swap':
             if a.size < 4:
                 return None
@@ -145,6 +176,10 @@ def _candidates(a, k, allow_scalars):
             out.append((where, key, 'interior'))
             out.append((where, key, 'near'))
             out.append((where, key, 'swap'))
+            out.append((where, key, 'first'))
+            out.append((where, key, 'superset'))
+            if isinstance(v, np.ndarray) and v.dtype.kind in 'iu':
+                out.append((where, key, 'view'))
         elif isinstance(v, (float, np.floating)) and not (where == 'a' and key == 0):
             out.append((where, key, 'near'))
             out.append((where, key, 'other'))
@@ -288,6 +323,47 @@ def _evict_args(a, k):
     return tuple(cut(v) for v in a), {n: cut(v) for n, v in k.items()}
 
 
+def _fresh_str(v):
+    """an equal string that is not the interned literal (Python compares strings with ==; code that uses `is` is wrong)"""
+    if isinstance(v, str) and len(v) >= 2:
+        return ''.join(list(v))
+    return v
+
+
+def _signal_like(r):
+    return type(r).__name__ in ('Signal', 'AccSignal') and hasattr(r, 'values') and hasattr(r, 'dt')
+
+
+def _factory_check(st, qual, res, a, k):
+    """an object handed out by a library function must report what a freshly constructed object with the same values and dt reports"""
+    import copy
+    import warnings
+    try:
+        vals = np.array(res.values)
+        if vals.ndim != 1 or vals.size < 2 or vals.size > 20000 or not np.all(np.isfinite(vals.astype(float))):
+            return
+        probe_obj = copy.deepcopy(res)
+        fresh = type(res)(vals, res.dt)
+    except Exception:  # noqa
+        return
+    names = ['npts', 'time', 'fa_spectrum', 'fa_frequencies'] + (['velocity', 'displacement', 'pga', 'pgv', 'pgd'] if type(res).__name__ == 'AccSignal' else [])
+    bad = []
+    for n in names:
+        try:
+            with warnings.catch_warnings():
+                warnings.simplefilter('ignore')
+                x, y = getattr(probe_obj, n), getattr(fresh, n)
+            same = (np.shape(x) == np.shape(y)) and bool(np.allclose(np.asarray(x), np.asarray(y), rtol=1e-9, atol=1e-12 * (1 + float(np.max(np.abs(vals)))), equal_nan=True))
+        except Exception:  # noqa
+            continue
+        if not same:
+            bad.append(n)
+    st.ctx.oracle(f"{st.prop} an object returned by {qual} reports the derived quantities of a freshly constructed object with the same values and time step",
+                  not bad, inputs={'function': qual, 'args': [_brief(v) for v in a], 'kwargs': {n: _brief(v) for n, v in k.items()},
+                                   'values': _brief(vals), 'dt': float(res.dt)},
+                  detail={'differs': bad}, facts={'fn': 'probe-factory', 'function': qual})
+
+
 def _wrap_function(orig, qual):
     @functools.wraps(orig)
     def wrapper(*a, **k):
@@ -297,6 +373,22 @@ def _wrap_function(orig, qual):
         st.depth += 1
         try:
             rng = st.rng
+            if rng.random() < 0.5:
+                a = tuple(_fresh_str(v) for v in a)
+                k = {n: _fresh_str(v) for n, v in k.items()}
+            res0 = _wrapper_body(st, rng, orig, qual, a, k)
+            if _signal_like(res0) and rng.random() < 0.5 and st.prop not in NO_METHOD_PROBE:
+                _factory_check(st, qual, res0, a, k)
+            return res0
+        finally:
+            st.depth -= 1
+    wrapper.__eqsig_probe__ = True
+    return wrapper
+
+
+def _wrapper_body(st, rng, orig, qual, a, k):
+    if True:
+        if True:
             if rng.random() >= P_PROBE:
                 return orig(*a, **k)
             try:
@@ -339,10 +431,6 @@ def _wrap_function(orig, qual):
                                                                                    else [_brief(x) for x in again[1]][:4])},
                               facts={'fn': 'probe', 'function': qual})
             return res
-        finally:
-            st.depth -= 1
-    wrapper.__eqsig_probe__ = True
-    return wrapper
 
 
 def _wrap_method(orig, qual):
